@@ -10,6 +10,8 @@ pub fn generate(scenario: &str, seed: u64, tier: &str) -> Value {
     match family {
         "proxy" => gen::gen_proxy(seed, prop, tier),
         "hostile" => crate::hostile::gen_c13(seed, tier),
+        "telemetry" => crate::telemetry::gen_c18(seed, tier),
+        "disk" => crate::diskuse::gen_c19(seed, tier),
         "crash" => {
             if prop == "C08-restart" {
                 crate::crash::gen_restart(seed)
@@ -69,7 +71,7 @@ pub async fn custom_step(run: &mut Run, _idx: usize, kind: &str, step: &Value) -
             true
         }
         other => {
-            if crate::hostile::custom_step(run, _idx, other, step).await || crate::provision::custom_step(run, _idx, other, step).await || crate::crash::custom_step(run, _idx, other, step).await {
+            if crate::hostile::custom_step(run, _idx, other, step).await || crate::provision::custom_step(run, _idx, other, step).await || crate::crash::custom_step(run, _idx, other, step).await || crate::telemetry::custom_step(run, _idx, other, step).await || crate::diskuse::custom_step(run, _idx, other, step).await {
                 true
             } else {
                 crate::keeper::custom_step(run, _idx, other, step).await
@@ -84,6 +86,7 @@ pub async fn run(scenario: &str, seed: u64, plan: Value) -> Value {
     match family.as_str() {
         "proxy" => oracle::check_proxy(&mut run),
         "hostile" => crate::hostile::check_c13(&mut run),
+        "telemetry" => crate::telemetry::check_c18(&mut run),
         "crash" => {
             oracle::check_proxy(&mut run);
             crate::crash::check_phase1(&mut run);
